@@ -205,13 +205,16 @@ def run_property(pid, tier="quick", cfgs=None, facts_for=None, out=sys.stdout, w
         os.makedirs(evidence_dir, exist_ok=True)
         with open(os.path.join(evidence_dir, f"{pid}.json"), "w") as f:
             json.dump(ev, f, indent=1)
-    out.write(f"[{pid}] tier={tier} cfgs={','.join(cfg_list)} rule-instances={n_inst} rules={len(rules_with_instances)} "
+    try:
+      out.write(f"[{pid}] tier={tier} cfgs={','.join(cfg_list)} rule-instances={n_inst} rules={len(rules_with_instances)} "
               f"violations={len(reported)} known={len(known_hit)} wall={wall:.1f}s\n")
-    for rname in sorted(per_rule):
+      for rname in sorted(per_rule):
         d = per_rule[rname]
         out.write(f"   {rname}: {d['instances']} instance(s), {d['ok']} ok, {d['violations']} violation(s)"
                   f"{', ' + str(d['unverifiable']) + ' unverifiable' if d['unverifiable'] else ''}\n")
-    for ln in lines:
+      for ln in lines:
         out.write(ln + "\n")
-    out.flush()
+      out.flush()
+    except BrokenPipeError:
+        pass
     return 1 if (reported or build_error) else 0
